@@ -31,7 +31,12 @@ def set_legacy(on):
 
 
 def lib_unmarshal(data, **kw):
+    """frame.unmarshal under a safety budget scaled to the input (measured
+    worst case 2.0 calls per byte; the tight C08 budget is separate)."""
     from pamqp import frame
+    n = len(data)
+    kw.setdefault('_calls', 40 * n + 20000)
+    kw.setdefault('_jumps', 40 * n + 20000)
     return call(frame.unmarshal, data, **kw)
 
 
